@@ -6,6 +6,7 @@ import BezierVerif.Model.Polygon
 import BezierVerif.Model.Sweep
 import BezierVerif.Model.MinDist
 import BezierVerif.Model.Extremes
+import BezierVerif.Model.Nodelist
 import BezierVerif.Gen.Box
 
 namespace ModelDriver
@@ -94,6 +95,37 @@ partial def parseCuts : List String → Option (List (List ℚ))
       let more ← parseCuts (rest.drop n)
       some (ts :: more)
 
+abbrev QP := ℚ × ℚ
+
+def toNSeg : Seg ℚ → Nodelist.Seg QP
+  | .line a b => .line (a.x, a.y) (b.x, b.y)
+  | .quad a b c => .quad (a.x, a.y) (b.x, b.y) (c.x, c.y)
+  | .cubic a b c d => .cubic (a.x, a.y) (b.x, b.y) (c.x, c.y) (d.x, d.y)
+
+def ofNSeg : Nodelist.Seg QP → Seg ℚ
+  | .line a b => .line ⟨a.1, a.2⟩ ⟨b.1, b.2⟩
+  | .quad a b c => .quad ⟨a.1, a.2⟩ ⟨b.1, b.2⟩ ⟨c.1, c.2⟩
+  | .cubic a b c d => .cubic ⟨a.1, a.2⟩ ⟨b.1, b.2⟩ ⟨c.1, c.2⟩ ⟨d.1, d.2⟩
+
+def showNode (n : Nodelist.Node QP) : String :=
+  (match n.ty with | .line => "l" | .curve => "c" | .offcurve => "o") ++ " " ++ showRats [n.p.1, n.p.2]
+
+partial def parseNodes : List String → Option (List (Nodelist.Node QP))
+  | [] => some []
+  | t :: x :: y :: rest => do
+      let ty ← (match t with | "l" => some Nodelist.NType.line | "c" => some .curve | "o" => some .offcurve | _ => none)
+      let x ← parseRat x; let y ← parseRat y
+      let more ← parseNodes rest
+      some (⟨(x, y), ty⟩ :: more)
+  | _ => none
+
+def showTok : Nodelist.Tok QP → String
+  | .M p => "M " ++ showRats [p.1, p.2]
+  | .L p => "L " ++ showRats [p.1, p.2]
+  | .Q c p => "Q " ++ showRats [c.1, c.2, p.1, p.2]
+  | .C a b p => "C " ++ showRats [a.1, a.2, b.1, b.2, p.1, p.2]
+  | .Z => "Z"
+
 def handle (name : String) (args : List String) : String :=
   match name with
   | "polygon.signedArea" =>
@@ -144,6 +176,33 @@ def handle (name : String) (args : List String) : String :=
   | "addExtremes" =>
     match parseSegs args with
     | some (l, []) => "ok " ++ showSegs (Extremes.addExtremes ratSqrt l)
+    | _ => "bad-args"
+  | "nodelist.to" =>
+    match parseSegs args with
+    | some (l, []) =>
+      match Nodelist.toNodelist (l.map toNSeg) with
+      | some nl => "ok " ++ " ".intercalate (nl.map showNode)
+      | none => "IndexError"
+    | _ => "bad-args"
+  | "nodelist.from" =>
+    match args with
+    | c :: rest =>
+      match parseNodes rest with
+      | some nl =>
+        match Nodelist.fromNodelist (c == "1") nl with
+        | some segs => "ok " ++ showSegs (segs.map ofNSeg)
+        | none => "error"
+      | none => "bad-args"
+    | _ => "bad-args"
+  | "svg" =>
+    match args with
+    | c :: rest =>
+      match parseSegs rest with
+      | some (l, []) =>
+        match Nodelist.svg (c == "1") (l.map toNSeg) with
+        | some toks => "ok " ++ " ".intercalate (toks.map showTok)
+        | none => "IndexError"
+      | _ => "bad-args"
     | _ => "bad-args"
   | _ => "nomodel"
 
